@@ -140,6 +140,34 @@ def sweep():
         if r and r[0] == "STRING" and len(r[3]) == 1:
             hexd.append((c, ord(r[3])))
     out["hex_digit_tbl"] = hexd
+    # ---- QUERY_DOCUMENT_KEYS completeness against the dataclass fields of every node class
+    import dataclasses
+    from graphql.language import ast as A
+    missing, unknown = [], []
+    todo, classes = [A.Node], []
+    while todo:
+        c = todo.pop()
+        classes.append(c)
+        todo += c.__subclasses__()
+    keys = getattr(A, "QUERY_DOCUMENT_KEYS", {})
+    for c in classes:
+        if c.__name__.startswith("Const") or not dataclasses.is_dataclass(c):
+            continue
+        listed = keys.get(c.kind, ())
+        fnames = []
+        for f in dataclasses.fields(c):
+            ann = str(f.type)
+            fnames.append(f.name)
+            if f.name != "loc" and "Node" in ann and c.__subclasses__() == [] or (
+                    f.name != "loc" and "Node" in ann and c.kind in keys):
+                if c.kind in keys or c.__subclasses__() == []:
+                    if f.name not in listed and c.kind != "ast":
+                        missing.append(f"{c.kind}.{f.name}")
+        for k in listed:
+            if c.kind in keys and k not in fnames:
+                unknown.append(f"{c.kind}.{k}")
+    out["keys_missing"] = sorted(set(missing))
+    out["keys_unknown"] = sorted(set(unknown))
     return out
 
 
@@ -165,6 +193,10 @@ def render(t) -> str:
              + coq_ranges(t["print_string_passthrough"]) + ".")
     L.append("Definition hex_digit_tbl : list (N * N) := ["
              + "; ".join(f"({a}, {b})" for a, b in t["hex_digit_tbl"]) + "].")
+    L.append(f"(* node-valued fields not listed in QUERY_DOCUMENT_KEYS: {t['keys_missing']} *)")
+    L.append(f"Definition keys_missing_count : N := {len(t['keys_missing'])}.")
+    L.append(f"(* listed keys that are not fields: {t['keys_unknown']} *)")
+    L.append(f"Definition keys_unknown_count : N := {len(t['keys_unknown'])}.")
     L.append("")
     return "\n".join(L)
 
